@@ -31,7 +31,24 @@ inductive OVal where
   | cbs (l : List (List String))                  -- per callback: its `cli_args()`
   deriving DecidableEq, Repr
 
-abbrev Options := OField → OVal
+/-- a configuration: the fields written so far (newest first) over the defaults.  A data structure,
+    not a function, so that executing the model does not re-run the whole method chain at every
+    field lookup. -/
+structure Options where
+  written : List (OField × OVal)
+  dflt : List (OField × OVal)      -- one entry per field: `Default::default()` of `BindgenOptions`
+
+def lookup (l : List (OField × OVal)) (f : OField) : Option OVal :=
+  match l.find? (·.1 == f) with
+  | some p => some p.2
+  | none => none
+
+def Options.get (o : Options) (f : OField) : OVal :=
+  match lookup o.written f with
+  | some v => v
+  | none => (lookup o.dflt f).getD (.strs [])
+
+instance : CoeFun Options (fun _ => OField → OVal) := ⟨Options.get⟩
 
 /-- caller-supplied constants of the real crate: field ↦ string of its default value -/
 abbrev Env := OField → String
@@ -53,12 +70,9 @@ def defaultVal (env : Env) (s : OptSpec) : OVal :=
   | .tCodegenConfig => .bits CodegenBits.all
   | .tDerived => .strs []
 
-def defaults (env : Env) : Options := fun f =>
-  match specOf f with
-  | some s => defaultVal env s
-  | none => .strs []
+def defaults (env : Env) : Options := ⟨[], optSpecs.map fun s => (s.field, defaultVal env s)⟩
 
-def set (o : Options) (f : OField) (v : OVal) : Options := fun g => if g = f then v else o g
+def set (o : Options) (f : OField) (v : OVal) : Options := { o with written := (f, v) :: o.written }
 
 def groupsPush (l : List (String × List String)) (k item : String) : List (String × List String) :=
   if l.any (·.1 == k) then l.map (fun p => if p.1 == k then (p.1, p.2 ++ [item]) else p)
@@ -66,44 +80,50 @@ def groupsPush (l : List (String × List String)) (k item : String) : List (Stri
 
 def tyOf (f : OField) : OType := match specOf f with | some s => s.ty | none => .tDerived
 
-/-- one `(field, write)` of a method applied to argument strings -/
-def applyWrite (m : OMethod) (args : List String) (o : Options) (fw : OField × OWrite) : Options :=
-  let f := fw.1
+/-- the value a write stores, from the method's argument strings, the field's type and its old value;
+    `none` = the write does not apply (wrong shape) and leaves the field alone -/
+def writeVal (m : OMethod) (args : List String) (ty : OType) (old : OVal) (w : OWrite) : Option OVal :=
   let a0 := args.headD ""
-  match fw.2 with
-  | .const b => set o f (.b b)
+  match w with
+  | .const b => some (.b b)
   | .arg =>
-    match tyOf f with
-    | .tBool => set o f (.b (a0 == "true"))
-    | .tOptPath | .tOptString => set o f (.opt (if a0 == "@none" then none else some a0))
-    | .tCodegenConfig => set o f (.bits ((parseCodegen a0.toList).getD CodegenBits.empty))
-    | _ => set o f (.str a0)
-  | .someArg => set o f (.opt (some a0))
-  | .constWhenArg argIs b => if (a0 == "true") == argIs then set o f (.b b) else o
-  | .setRustfmt => set o f (.str "rustfmt")
+    match ty with
+    | .tBool => some (.b (a0 == "true"))
+    | .tOptPath | .tOptString => some (.opt (if a0 == "@none" then none else some a0))
+    | .tCodegenConfig => some (.bits ((parseCodegen a0.toList).getD CodegenBits.empty))
+    | _ => some (.str a0)
+  | .someArg => some (.opt (some a0))
+  | .constWhenArg argIs b => if (a0 == "true") == argIs then some (.b b) else none
+  | .setRustfmt => some (.str "rustfmt")
   | .pushFormatted =>
-    match o f with
-    | .strs l => set o f (.strs (l ++ ["#[link(wasm_import_module = \"" ++ a0 ++ "\")]"]))
-    | _ => o
+    match old with
+    | .strs l => some (.strs (l ++ ["#[link(wasm_import_module = \"" ++ a0 ++ "\")]"]))
+    | _ => none
   | .removeBit =>
-    match o f with
-    | .bits c => if m == .ignore_functions then set o f (.bits { c with functions := false })
-                 else set o f (.bits { c with methods := false })
-    | _ => o
+    match old with
+    | .bits c => if m == .ignore_functions then some (.bits { c with functions := false })
+                 else some (.bits { c with methods := false })
+    | _ => none
   | .pushArg =>
-    match o f, args with
-    | .strs l, _ => set o f (.strs (l ++ [a0]))
-    | .groups l, [k, item] => set o f (.groups (groupsPush l k item))
-    | .triples l, [x, y, z] => set o f (.triples (l ++ [(x, y, z)]))
-    | .cbs l, _ => set o f (.cbs (l ++ [args]))
-    | _, _ => o
+    match old, args with
+    | .strs l, _ => some (.strs (l ++ [a0]))
+    | .groups l, [k, item] => some (.groups (groupsPush l k item))
+    | .triples l, [x, y, z] => some (.triples (l ++ [(x, y, z)]))
+    | .cbs l, _ => some (.cbs (l ++ [args]))
+    | _, _ => none
   | .custom =>
     match m, args with
-    | .depfile, [_, path] => set o f (.opt (some path))
-    | .depfile, [path] => set o f (.opt (some path))      -- CLI: `builder.depfile(output or "-", path)`
-    | .rustfmt_bindings, _ => set o f (.str (if a0 == "true" then "rustfmt" else "none"))
-    | .header_contents, _ => match o f with | .strs l => set o f (.strs (l ++ [a0])) | _ => o
-    | _, _ => o
+    | .depfile, [_, path] => some (.opt (some path))
+    | .depfile, [path] => some (.opt (some path))      -- CLI: `builder.depfile(output or "-", path)`
+    | .rustfmt_bindings, _ => some (.str (if a0 == "true" then "rustfmt" else "none"))
+    | .header_contents, _ => match old with | .strs l => some (.strs (l ++ [a0])) | _ => none
+    | _, _ => none
+
+/-- one `(field, write)` of a method applied to argument strings -/
+def applyWrite (m : OMethod) (args : List String) (o : Options) (fw : OField × OWrite) : Options :=
+  match writeVal m args (tyOf fw.1) (o fw.1) fw.2 with
+  | some v => set o fw.1 v
+  | none => o
 
 /-- a `Builder` method call -/
 def applyMethod (m : OMethod) (args : List String) (o : Options) : Options :=
@@ -290,6 +310,7 @@ def armArgs (a : CliArm) (vals : List String) : List String :=
     -- `PrefixLinkNameCallback` has no `cli_args` (trait default: nothing)
     match a.parser, vals with
     | .customDerive, [r, l] | .customAttr, [r, l] => [flagText a.flag, r ++ "=" ++ l]
+    | .plain, [v] => if prefixLinkNameCliArgs then [flagText a.flag, v] else []
     | _, _ => []
   | .fromValue =>
     match a.clap with
@@ -309,6 +330,15 @@ def insertByOrder (x : Nat × Occ) : List (Nat × Occ) → List (Nat × Occ)
 def byOrder (occs : List Occ) : List Occ :=
   ((occs.filterMap fun o => o.arm.order.map fun n => (n, o)).foldr insertByOrder []).map (·.2)
 
+/-- one occurrence applied to the builder: the arm's method on the arm's arguments -/
+def stepOcc (b : Options) (o : Occ) : Options :=
+  match o.arm.method with
+  | some m => applyMethod m (armArgs o.arm o.vals) b
+  | none => b
+
+/-- the arms in `apply_args!` order followed by the post-steps -/
+def absorb (env : Env) (occs : List Occ) : Options := (byOrder occs).foldl stepOcc (defaults env)
+
 /-- `builder_from_flags` on an argument list (without the program name) -/
 def fromFlags (env : Env) (args : List String) : Except ParseError Options := do
   let occs ← lexArgs (args.length + 1) args false []
@@ -317,10 +347,7 @@ def fromFlags (env : Env) (args : List String) : Except ParseError Options := do
     pure { o with vals := v }
   checkConflicts occs
   if !(occs.any (·.arm.clap == .positional)) then throw .noHeader
-  pure <| (byOrder occs).foldl (fun b o =>
-    match o.arm.method with
-    | some m => applyMethod m (armArgs o.arm o.vals) b
-    | none => b) (defaults env)
+  pure (absorb env occs)
 
 /-! ## comparison -/
 
